@@ -192,13 +192,19 @@ CHECKS = {
         "DESIGN.md 4 C03"),
     "C11": (
         "TLC proves PoolOp.tla (transcription of commitment.Pool) => PoolRule.tla (declarative rule); transition-covering "
-        "behaviours replayed on the real Pool; real outcomes validated by TLC against TracePoolRule.tla (rule only)",
+        "behaviours replayed on the real Pool; real outcomes validated by TLC against TracePoolRule.tla (rule only); executor "
+        "commitments submitted as transactions to the real roothash application on live multiplexers and every emitted runtime "
+        "block judged by TLC with the same rule (TraceRoothash.tla)",
         "Exhaustive TLC check of the operational model against the declarative rule for committees <=3+3 with overlapping roles, "
         "stragglers 0..2, all orders of <=5 commitments and processing calls with/without timeout; every distinct (operation, "
         "model state) pair replayed on the real pool (plain and CBOR round-tripped); the verdict comes from TLC evaluating the "
-        "rule on recorded real outcomes, including random rounds with committees beyond the design bound.",
-        "Trusted: TLC, JSON bridge. Commitments are pre-verified; 'present' read as agreeing votes. Only the pool and committee "
-        "rank arithmetic are bound; the roothash application's block emission is not (see DESIGN.md).",
+        "rule on recorded real outcomes, including random rounds with committees beyond the design bound; at the application "
+        "level every Normal / RoundFailed / EpochTransition / Suspended block of seeded scenarios (members and non-members, "
+        "schedulers of every rank, dissent, failures, stale rounds, timeouts, discrepancy resolution) must be permitted by the rule, "
+        "accepted commitments must pass AcceptOK, and no expired round timer may be left armed.",
+        "Trusted: TLC, JSON bridge. Pool level: commitments are pre-verified; 'present' read as agreeing votes. Application "
+        "level: no TEE runtimes, no runtime messages, no slashing for incorrect results, liveness evaluation idle; committees "
+        "of at most 3 primary and 2 backup workers.",
         "DESIGN.md 4 C11"),
     "C20": (
         "TLA+ reference model (TxPool.tla) checked by TLC; TLC-emitted transition-covering behaviours replayed on the real "
